@@ -306,6 +306,91 @@ partial def randomWalk (c : Cfg) (r : Rng) (probePct : Nat) (pre : List String :
     toks := toks.push (showTid t)
   return (r, toks.toList)
 
+/-- enabled harness tokens of a state (no blocked probes): threads, and evictions while the manager mutex is free -/
+def coverTokens (c : Cfg) (h : HState) (ev : Nat) : List String :=
+  (c.tids.filter fun t => enabled h.s t).map showTid ++
+  (if ev > 0 && h.s.mgr.isNone then ((List.range c.nNames).filter fun n => (h.s.map n).isSome).map (fun n => s!"e{n}") else [])
+
+def applyToken (h : HState) (tok : String) : HState :=
+  if tok.startsWith "e" then { h with s := evict h.s [((tok.drop 1).toString.toNat?).getD 0] }
+  else match parseTid tok with
+    | some t => hstep h t
+    | none => h
+
+def hkey (c : Cfg) (h : HState) (ev : Nat) : Array Nat := ((h.s.key c).push ev) ++ h.lru.toArray
+
+/-- schedules that together take EVERY transition of the configuration's reachable state graph (at
+harness granularity) at least once: the real code is driven through each of them -/
+partial def genCover (c : Cfg) (r0 : Rng) (maxStates : Nat) : List String × Nat × Nat × Bool := Id.run do
+  let h0 : HState := { s := c.init }
+  let mut seen : Std.HashMap (Array Nat) Nat := {}
+  let mut nodes : Array (Nat × String × HState × Nat) := #[(0, "", h0, c.evictBudget)]
+  seen := seen.insert (hkey c h0 c.evictBudget) 0
+  let mut head := 0
+  let mut truncated := false
+  let mut nEdges := 0
+  while head < nodes.size do
+    let (_, _, h, ev) := nodes[head]!
+    for tok in coverTokens c h ev do
+      nEdges := nEdges + 1
+      let h' := applyToken h tok
+      let h' := { h' with s := h'.s.normalize c }
+      let ev' := if tok.startsWith "e" then ev - 1 else ev
+      let k := hkey c h' ev'
+      if !seen.contains k then
+        if nodes.size ≥ maxStates then truncated := true
+        else
+          seen := seen.insert k nodes.size
+          nodes := nodes.push (head, tok, h', ev')
+    head := head + 1
+  -- cover
+  let mut covered : Std.HashSet (Nat × String) := {}
+  let mut out : Array String := #[]
+  let mut r := r0
+  for i in List.range nodes.size do
+    let (_, _, h, ev) := nodes[i]!
+    for tok in coverTokens c h ev do
+      if !covered.contains (i, tok) then
+        -- path root → i
+        let mut path : List String := []
+        let mut j := i
+        while j != 0 do
+          let (pj, t, _, _) := nodes[j]!
+          path := t :: path
+          j := pj
+        let mut toks : Array String := path.toArray
+        -- take the edge, then continue, preferring transitions not taken yet
+        let mut cur := i
+        let mut nextTok := tok
+        let mut fuel := 800
+        let mut deadlock := false
+        while fuel > 0 do
+          fuel := fuel - 1
+          covered := covered.insert (cur, nextTok)
+          toks := toks.push nextTok
+          let (_, _, hc, evc) := nodes[cur]!
+          let h' := applyToken hc nextTok
+          let h' := { h' with s := h'.s.normalize c }
+          let ev' := if nextTok.startsWith "e" then evc - 1 else evc
+          match seen.get? (hkey c h' ev') with
+          | none => break   -- beyond the truncated frontier
+          | some nx =>
+            cur := nx
+            let (_, _, hn, evn) := nodes[nx]!
+            if hn.s.allDone c then break
+            let cands := coverTokens c hn evn
+            if cands.isEmpty then
+              deadlock := true
+              break
+            let fresh := cands.filter fun t => !covered.contains (nx, t)
+            let pool := if fresh.isEmpty then cands else fresh
+            let (r1, k) := r.below pool.length
+            r := r1
+            nextTok := pool.getD k ""
+        if deadlock then toks := toks.push "D"
+        out := out.push (showCfgH c ++ " :: " ++ " ".intercalate toks.toList)
+  return (out.toList, nodes.size, nEdges, truncated)
+
 def genQuick (seed : Nat) (v : Variant) (n : Nat) : List String := Id.run do
   let mut r : Rng := ⟨UInt64.ofNat (seed * 7919 + 13)⟩
   let mut out : Array String := #[]
@@ -319,16 +404,45 @@ def genQuick (seed : Nat) (v : Variant) (n : Nat) : List String := Id.run do
 
 end Sema.C11
 
-def Sema.C11.driverMain (stdin stdout : IO.FS.Stream) (args : List String) : IO Unit :=
+partial def Sema.C11.driverMain (stdin stdout : IO.FS.Stream) (args : List String) : IO Unit :=
   match args with
   | "explore" :: rest =>
     let m := (rest.head?.bind String.toNat?).getD 2000000
     Sema.loopPure stdin stdout (Sema.C11.exploreLine m)
-  | ["replay"] => Sema.loopPure stdin stdout Sema.C11.replayLine
+  | [] | ["replay"] => Sema.loopPure stdin stdout Sema.C11.replayLine
+  | ["gen", "walks", seed, k] => do
+    -- stdin: configuration lines; k random walks per configuration (every third one probes blocked threads)
+    let rec loop (r : Sema.C11.Rng) : IO Unit := do
+      let line ← stdin.getLine
+      if line.isEmpty then return ()
+      match Sema.C11.parseCfgLine line with
+      | none => loop r
+      | some c =>
+        let mut r := r
+        for i in List.range (k.toNat?.getD 10) do
+          let (r', toks) := Sema.C11.randomWalk c r (if i % 3 == 0 then 15 else 0)
+          r := r'
+          stdout.putStrLn (Sema.C11.showCfgH c ++ " :: " ++ " ".intercalate toks)
+        loop r
+    loop ⟨UInt64.ofNat ((seed.toNat?.getD 1) * 15485863 + 11)⟩
   | "witness" :: rest =>
     let m := (rest.head?.bind String.toNat?).getD 2000000
     Sema.loopPure stdin stdout (Sema.C11.witnessLine m)
   | ["gen", "quick", seed, v, n] =>
     for l in Sema.C11.genQuick (seed.toNat?.getD 1) (Sema.C11.parseVariant v) (n.toNat?.getD 300) do
       stdout.putStrLn l
+  | ["gen", "cover", seed, maxStates] => do
+    -- stdin: configuration lines; stdout: schedule lines; stderr: sizes
+    let stderr ← IO.getStderr
+    let rec loop : IO Unit := do
+      let line ← stdin.getLine
+      if line.isEmpty then return ()
+      match Sema.C11.parseCfgLine line with
+      | none => stderr.putStrLn s!"bad-cfg {line}"
+      | some c =>
+        let (ls, nStates, nEdges, trunc) := Sema.C11.genCover c ⟨UInt64.ofNat ((seed.toNat?.getD 1) * 104729 + 7)⟩ (maxStates.toNat?.getD 200000)
+        for l in ls do stdout.putStrLn l
+        stderr.putStrLn s!"cover {Sema.C11.showCfgH c}: states={nStates} transitions={nEdges} schedules={ls.length}{if trunc then " TRUNCATED" else ""}"
+      loop
+    loop
   | _ => stdout.putStrLn "usage: semadriver C11 explore [maxStates] | replay | gen quick <seed> <variant> <n>"
